@@ -21,6 +21,7 @@ import (
 const (
 	RefN     = 10 // external indexes derived for the reference table
 	SecretsN = 10 // external / internal child keys whose private material is searched for
+	IntN     = 2  // internal (change) indexes a mnemonic import restores in the harness (InternalIndex)
 )
 
 // AddrOfPub is the address a public key is committed to by: witness script hash of the 1-of-1
@@ -67,6 +68,7 @@ type Secret struct {
 type Reference struct {
 	ID      string
 	Addrs   []RefAddr
+	IntAddrs []string // standard addresses of the first IntN internal-branch keys
 	Pubs    []*btcec.PublicKey
 	MnHash  string
 	Bits    int
@@ -175,6 +177,17 @@ func Derive(owner, mnemonic, pass string) (*Reference, error) {
 			ck.SetNet(config.ChainParams)
 			if err := xk(fmt.Sprintf("%s-key%d", bn, k), ck); err != nil {
 				return nil, err
+			}
+			if br == 1 && k < IntN {
+				pub, err := ck.ECPubKey()
+				if err != nil {
+					return nil, err
+				}
+				std, _, err := AddrOfPub(pub)
+				if err != nil {
+					return nil, err
+				}
+				r.IntAddrs = append(r.IntAddrs, std)
 			}
 			if br == 0 && k < RefN {
 				pub, err := ck.ECPubKey()
